@@ -228,7 +228,12 @@ partial def pStmt : P Stmt := do
   | "while" => do let c ← pExpr; pure (.whileS c (← pStmt))
   | "do" => do let b ← pStmt; pure (.doWhile b (← pExpr))
   | "for" => do
-      let i ← pOpt (bit (a 2) 0)
+      -- head: 0 = none, 1 = expression, v = `var x`, V:<class> = `var x = e`
+      let i : ForInit ← (match (a 2).toList.getD 0 '0' with
+        | '1' => do pure (ForInit.expr (← pExpr))
+        | 'v' => pure ForInit.var0
+        | 'V' => do let c ← need (idClass? (a 3)) "class"; pure (ForInit.varInit c (← pExpr))
+        | _ => pure ForInit.none)
       let c ← pOpt (bit (a 2) 1)
       let u ← pOpt (bit (a 2) 2)
       pure (.forS i c u (← pStmt))
